@@ -474,11 +474,42 @@ def rule_reindex(ctx):
         ctx.violated('R1', rl, 'Dataset.reindex_like', 'Dataset.reindex_like delegates to the generic reindex_like(self, other, **kwargs)')
 
 
+def rule_reflected_ops(ctx):
+    """R7: `2 - ds`, `2 / ds`, `2 ** ds`.  Python calls the reflected special method only when the left operand does not know the right one, i.e. with a plain
+    scalar / ndarray on the left; OpMixin's default `_rbinary_op` is `other._binary_op(func, self)`, which that left operand does not have.  A class that
+    supports arithmetic with scalars must therefore provide its own `_rbinary_op`, applying the per-variable reflected operation."""
+    ctx.rule('R7', 'reflected arithmetic (scalar on the left) is implemented per variable', 1)
+    P = ctx.P
+    default = P.method('dimarray.core.bases.OpMixin', '_rbinary_op')
+    for cq in ('dimarray.dataset.Dataset',):
+        try:
+            got = P.method(cq, '_rbinary_op')
+        except AnalysisError:
+            got = None
+        refl = [n for n in ('__rsub__', '__rtruediv__', '__rfloordiv__', '__rpow__') if P.lookup(P.cls(cq), n) is not None]
+        if got is None or got is default:
+            ctx.violated('R7', cq, 'Dataset._rbinary_op', '%s inherits OpMixin._rbinary_op (`other._binary_op(func, self)`): %s with a scalar on the left raise AttributeError, while the same '
+                         'operation on each variable works' % (cq.rsplit('.', 1)[-1], ', '.join(refl)))
+            continue
+        ev = run(ctx, got, mode='join')
+        ok = False
+        for p in ev.paths:
+            for e in p.calls('_rbinary_op'):
+                recv = T.call_receiver(e.a)
+                if recv[0] == 'sub' and recv[1] == SELF and e.a[2][:2] == (P_(got.params[1]), P_(got.params[2])) and e.loops:
+                    ok = True
+        if ok:
+            ctx.holds('R7', '%s._rbinary_op: self[k]._rbinary_op(func, other) for every variable' % cq.rsplit('.', 1)[-1])
+        else:
+            ctx.violated('R7', got, 'Dataset._rbinary_op body', 'the reflected operation must be applied variable by variable: res[k] = self[k]._rbinary_op(func, other)')
+
+
 def check(ctx):
     rule_delegation(ctx)
     rule_reduce_axis(ctx)
     rule_take(ctx)
     rule_reindex(ctx)
+    rule_reflected_ops(ctx)
     ctx.not_decided += ['value equality with the per-variable result', 'Dataset.__eq__ / copy semantics']
     ctx.trusted += ['np.take(values, indices, axis=) semantics']
     return EXPLANATION
